@@ -1325,8 +1325,8 @@ def _rt1(v, qual, decoder_qual=None, extra_valid=(), pick=(), suffix='', pick_cl
     v.oblige(st, z3.BoolVal(n_paths > 0), tag + "decoder-executed", "paths: %d" % n_paths)
 
 
-# (the classes that contain a VLQ or a list - BlockSummary, BlockHeader, Transaction, Block - stay with the bounded companion:
-# the VLQ pair is a trusted summary and the list decoder would need a second family of loop invariants)
+# (Transaction and Block - the classes containing a list - stay with the bounded companion: the list decoder would need a
+# second family of loop invariants and a suffix decomposition of the prefix-recursive list encoding)
 LM.lemma("C07.rt1.OutputReference", props=["C07"])(lambda v: _rt1(v, "skepticoin.datatypes.OutputReference"))
 LM.lemma("C07.rt1.PowEvidence", props=["C07"])(lambda v: _rt1(
     v, "skepticoin.datatypes.PowEvidence",
@@ -1338,7 +1338,16 @@ for _q, _dq in (("skepticoin.signing.SECP256k1PublicKey", "skepticoin.signing.Pu
                 ("skepticoin.signing.CoinbaseData", "skepticoin.signing.Signature"),
                 ("skepticoin.datatypes.Output", None)):
     LM.lemma("C07.rt1.%s" % _q.split('.')[-1], props=["C07"])(lambda v, _q=_q, _dq=_dq: _rt1(v, _q, _dq))
-for _kind in ("SECP256k1Signature", "SignableEquivalent"):      # (the CoinbaseData case takes a minute: companion only)
+LM.lemma("C07.rt1.BlockSummary", props=["C07"])(lambda v: _rt1(
+    v, "skepticoin.datatypes.BlockSummary",
+    extra_valid=("len(x.previous_block_hash) == 32", "len(x.merkle_root_hash) == 32", "len(x.target) == 32")))
+LM.lemma("C07.rt1.BlockHeader", props=["C07"])(lambda v: _rt1(
+    v, "skepticoin.datatypes.BlockHeader",
+    extra_valid=("x.version == 0",          # (the constructor sets it; there is no other way to build a header)
+                 "len(x.summary.previous_block_hash) == 32", "len(x.summary.merkle_root_hash) == 32", "len(x.summary.target) == 32",
+                 "len(x.pow_evidence.summary_hash) == 32", "len(x.pow_evidence.chain_sample) == 32",
+                 "len(x.pow_evidence.block_hash) == 32")))
+for _kind in ("SECP256k1Signature", "SignableEquivalent", "CoinbaseData"):
     LM.lemma("C07.rt1.Input.%s" % _kind, props=["C07"])(
         lambda v, _kind=_kind: _rt1(v, "skepticoin.datatypes.Input", None, pick=("isinstance(x.signature, %s)" % _kind,),
                                     suffix='.' + _kind, pick_class=_kind))
